@@ -1,4 +1,5 @@
 import UsualProofs.C02.Unescape
+import UsualProofs.C02.Total
 /-!
 # C02 — every string of an accepted tree comes out of `parse_string`
 -/
@@ -84,7 +85,8 @@ def GoodFrame : Frame → Prop
 
 def GoodSt (st : St) : Prop := (∀ f ∈ st.stack, GoodFrame P f) ∧ (∀ v, st.top = some v → GoodVal P v)
 
-theorem GoodSt_init : GoodSt P St.init := ⟨by intro f hf; cases hf, by intro v hv; cases hv⟩
+theorem GoodSt_init : GoodSt P St.init :=
+  ⟨(by intro f hf; simp [St.init] at hf), (by intro v hv; simp [St.init] at hv)⟩
 
 theorem GoodFrame_value {f : Frame} (h : GoodFrame P f) : GoodVal P f.value := by
   cases f with
@@ -159,7 +161,7 @@ theorem attach_good {st st' : St} {v : JVal} (hg : GoodSt P st) (hv : GoodVal P 
     split at h
     · cases h
     · cases h
-      refine ⟨by intro f hf; rw [hst] at hf; cases hf, ?_⟩
+      refine ⟨(by intro f hf; simp at hf), ?_⟩
       intro x hx; cases hx; exact hv
 
 theorem closeC_good {st st' : St} (hg : GoodSt P st) (h : closeC st = .ok st') : GoodSt P st' := by
@@ -227,9 +229,10 @@ theorem step_good {sd : Bytes → UInt64 × Nat} {o : Opts} {st : St} {c : UInt8
             · cases this
             · cases this; exact GoodVal_scalar P rfl
   · obtain ⟨_, _, ho⟩ := stepOpen_next h
-    exact openC_good P (GoodSt_state P hg _) (by intro v hv; cases hv) ho
+    exact openC_good P (GoodSt_state P hg _) (by unfold GoodFrame; intro v hv; cases hv) ho
   · obtain ⟨_, _, ho⟩ := stepOpen_next h
-    exact openC_good P (GoodSt_state P hg _) ⟨by intro p hp; cases hp, by intro v hv; cases hv⟩ ho
+    exact openC_good P (GoodSt_state P hg _)
+      (by unfold GoodFrame; exact ⟨(by intro p hp; cases hp), (by intro v hv; cases hv)⟩) ho
   · obtain ⟨_, _, ho⟩ := stepClose_next h; exact closeC_good P (GoodSt_state P hg _) ho
   · obtain ⟨_, _, ho⟩ := stepClose_next h; exact closeC_good P (GoodSt_state P hg _) ho
   · obtain ⟨_, _, ho⟩ := stepColon_next h
